@@ -5,14 +5,15 @@
    (Circuit.eval(mixed=False) = tensor.Functor(lambda x: x[0].dim,
    lambda f: f.array)), composition, tensor, dagger and [rewire].
 
-   BUG-COMPATIBLE: the model describes the code as it is.  In particular
-     F6  Y.array = [0, -1j, 1j, 0] read as [in, out] is the TRANSPOSE of the
-         Pauli matrix, so Y evaluates to -Y (and Controlled(Y) to C(-Y));
-     F7  Ry.array = [[cos, -sin], [sin, cos]] read as [in, out] is the
-         transpose of tket's Ry: Ry(p) evaluates to Ry(-p);
-     F8  Controlled.__init__ copies controlled.array, the RAW array, and so
-         ignores controlled._dagger: Controlled(S).dagger() =
-         Controlled(S.dagger()) evaluates like Controlled(S).
+   The model describes the code as it is.  Three defects found with this model
+   were repaired upstream (fix commits 283c08a, 648c8a7, a3ece78) and the model
+   follows the repaired code:
+     F6  Y.array was the transpose of the Pauli matrix (arrays are read
+         [in, out]); now [0, 1j, -1j, 0];
+     F7  Ry.array likewise; now [[cos, sin], [-1 * sin, cos]];
+     F8  Controlled.__init__ copied controlled.array whatever controlled._dagger;
+         now numpy.conjugate(controlled.array).transpose() when
+         controlled.is_dagger.
 
    A phase p (in full turns, as DisCoPy counts) enters as e = exp(i*pi*p)
    (Ring.v): half_theta = pi*p, so cos/sin(half_theta) = pcos/psin e,
@@ -77,7 +78,7 @@ Section Gates.
     | NS => [1; 0; 0; ri]
     | NT => [1; 0; 0; rw8]                                     (* exp(1j*pi/4) *)
     | NX => [0; 1; 1; 0]
-    | NY => [0; - ri; ri; 0]                                   (* F6: as written in gates.py *)
+    | NY => [0; ri; - ri; 0]                                   (* [0, 1j, -1j, 0] *)
     | NZ => [1; 0; 0; ropp 1]
     end.
 
@@ -85,7 +86,7 @@ Section Gates.
     let c := pcos e in let s := psin e in
     match r with
     | RRx => [c; - ri * s; - ri * s; c]                        (* [[cos, -1j*sin], [-1j*sin, cos]] *)
-    | RRy => [c; (ropp 1) * s; s; c]                                (* [[cos, -1*sin], [sin, cos]]   F7 *)
+    | RRy => [c; s; (ropp 1) * s; c]                          (* [[cos, sin], [-1*sin, cos]] *)
     | RRz => [rconj e; 0; 0; e]                                (* [[exp(-1j*ht), 0], [0, exp(1j*ht)]] *)
     end.
 
@@ -111,10 +112,22 @@ Section Gates.
     | RCRx => [1;0;0;0; 0;1;0;0; 0;0; c; - ri * s; 0;0; - ri * s; c]
     end.
 
+  (* box.is_dagger: only a named gate whose flag is True *)
+  Definition gate1_is_dagger (g : gate1) : bool :=
+    match g with G1Named _ d => d | G1Rot _ _ => false end.
+
+  (* numpy.conjugate(a).transpose() of a flat 2x2 array *)
+  Definition conj_transpose_flat (a : list SR) : list SR :=
+    [rconj (nth 0 a 0); rconj (nth 2 a 0); rconj (nth 1 a 0); rconj (nth 3 a 0)].
+
+  (* what Controlled.__init__ writes into array[2:, 2:] *)
+  Definition controlled_target (g1 : gate1) : list SR :=
+    if gate1_is_dagger g1 then conj_transpose_flat (gate1_flat g1) else gate1_flat g1.
+
   Definition gate2_flat (g : gate2) : list SR :=
     match g with
     | G2CZ => [1;0;0;0; 0;1;0;0; 0;0;1;0; 0;0;0; ropp 1]
-    | G2Ctrl g1 => controlled_flat (gate1_flat g1)            (* F8: the raw array of g1 *)
+    | G2Ctrl g1 => controlled_flat (controlled_target g1)
     | G2Rot r e => rot2_flat r e
     end.
 
@@ -165,10 +178,6 @@ Section Gates.
     | BScalar z => BScalar (rconj z)                          (* self if real, else Scalar(conj) *)
     | BSqrt2 k => BSqrt2 k                                    (* real data: _dagger None: self *)
     end.
-
-  (* box.is_dagger: only a named gate whose flag is True *)
-  Definition gate1_is_dagger (g : gate1) : bool :=
-    match g with G1Named _ d => d | G1Rot _ _ => false end.
 
   (* tensor.Functor on a box: Tensor(dom, cod, box.array), through
      `self(box.dagger()).dagger()` when box.is_dagger *)
@@ -306,7 +315,7 @@ Arguments G2Rot {_}. Arguments BG1 {_}. Arguments BG2 {_}. Arguments BSwap {_}.
 Arguments BKet {_}. Arguments BBra {_}. Arguments BScalar {_}. Arguments BSqrt2 {_}.
 Arguments Circ {_}. Arguments c_dom {_}. Arguments c_layers {_}.
 Arguments named1_flat {_}. Arguments rot1_flat {_}. Arguments gate1_flat {_}.
-Arguments controlled_flat {_}. Arguments rot2_flat {_}. Arguments gate2_flat {_}.
+Arguments controlled_flat {_}. Arguments conj_transpose_flat {_}. Arguments controlled_target {_}. Arguments rot2_flat {_}. Arguments gate2_flat {_}.
 Arguments sqrt2_pow {_}. Arguments box_dom {_}. Arguments box_cod {_}.
 Arguments gate1_dagger {_}. Arguments gate2_dagger {_}. Arguments box_dagger {_}.
 Arguments gate1_is_dagger {_}. Arguments gate1_eval {_}. Arguments gate2_eval {_}.
